@@ -110,7 +110,7 @@ func Shapes(f *ast.File, fset *gotoken.FileSet, src []byte) []string {
 			}
 		}
 	}
-	var braceInHeader, ellipsisInHeader, emptyCmd, guardInParen, classTag, cmdNextLine, onelineLambda bool
+	var braceInHeader, ellipsisInHeader, emptyCmd, guardInParen, classTag, cmdNextLine, onelineLambda, onelineLambdaInList bool
 	line := func(p gotoken.Pos) int { return fset.Position(p).Line }
 	header := func(n goast.Node) {
 		if n == nil {
@@ -213,6 +213,14 @@ func Shapes(f *ast.File, fset *gotoken.FileSet, src []byte) []string {
 					}
 				}
 			}
+		case *ast.ReturnStmt:
+			if exprListOnelineLambda(v.Results, line) {
+				onelineLambdaInList = true
+			}
+		case *ast.AssignStmt:
+			if exprListOnelineLambda(v.Rhs, line) {
+				onelineLambdaInList = true
+			}
 		case *ast.LambdaExpr2:
 			if v.Body != nil && len(v.Body.List) > 0 && line(v.Body.Lbrace) == line(v.Body.Rbrace) {
 				onelineLambda = true
@@ -277,6 +285,7 @@ func Shapes(f *ast.File, fset *gotoken.FileSet, src []byte) []string {
 	add(ellipsisInHeader, "elem-ellipsis-in-header")
 	add(parenLambdaBlock, "paren-lambda-block")
 	add(lambdaArgNewline, "lambda-last-arg-before-newline")
+	add(onelineLambdaInList, "oneline-lambda-before-multiline-element")
 	add(onelineLambda, "oneline-lambda-block")
 	add(importRparen, "import-rparen-on-spec-line")
 	add(trailingPair, "trailing-comments-around-line-break")
@@ -309,4 +318,31 @@ func parenDepthAt(src []byte, at int) int {
 		}
 	}
 	return d
+}
+
+// exprListOnelineLambda: an expression list of two or more elements in which an element holds a
+// block lambda written on one line and a later element runs over several lines (the first pass
+// breaks the lambda's block over lines inside a list that is itself broken).
+func exprListOnelineLambda(list []ast.Expr, line func(gotoken.Pos) int) bool {
+	if len(list) < 2 {
+		return false
+	}
+	for i, e := range list[:len(list)-1] {
+		found := false
+		astx.Walk(e, astx.Options{}, func(n, _ goast.Node, _ string) bool {
+			if l, ok := n.(*ast.LambdaExpr2); ok && l.Body != nil && len(l.Body.List) > 0 && line(l.Body.Lbrace) == line(l.Body.Rbrace) {
+				found = true
+			}
+			return !found
+		})
+		if !found {
+			continue
+		}
+		for _, later := range list[i+1:] {
+			if line(later.Pos()) != line(later.End()-1) {
+				return true
+			}
+		}
+	}
+	return false
 }
